@@ -67,6 +67,14 @@ def fnvInit : UInt64 := 14695981039346656037
 def hashLines (ls : List Bytes) : UInt64 :=
   ls.foldl (fun h l => fnvByte (l.foldl fnvByte h) 10) fnvInit
 
+/-- The same hash computed from byte ranges of the files (what the driver does). -/
+def hashRange (f : File) (h : UInt64) (a : Nat) : Nat → UInt64
+  | 0 => h
+  | n + 1 => hashRange f (fnvByte h (f.byte a)) (a + 1) n
+
+def hashRanges (fs : List File) (rs : List (Nat × Nat × Nat)) : UInt64 :=
+  rs.foldl (fun h x => fnvByte (hashRange (fs.getD x.1 noFile) h x.2.1 (x.2.2 - x.2.1)) 10) fnvInit
+
 /-- Everything, newest file first, each file last line first. -/
 def allRev (ds : List FileDesc) : List Bytes := ds.reverse.flatMap (fun d => d.lines.reverse)
 
@@ -85,17 +93,19 @@ def absentClassOK (st : List Int) (ts : Int) (e : Err) : Bool :=
     else if st.getLastD first < ts then e = .tooLate
     else e = .notFound
 
-inductive Op
-  | start | next (n : Nat) | seek (ts : Int)
-  | fstart (k : Nat) | fnext (k n : Nat) | fseek (k : Nat) (ts : Int)
-deriving Repr, DecidableEq
-
 /-- What is observed of one operation (of the implementation or of the model). -/
 inductive Obs
   | start (ok : Bool)
   | next (cnt : Nat) (endc : Option Err) (hash : UInt64)   -- `endc = none`: all `n` reads succeeded
   | seek (res : Option Err)                                 -- `none`: success
 deriving Repr, DecidableEq
+
+/-- The observation made of a model step. -/
+def obsOf (fs : List File) : Out → Obs
+  | .start _ => .start true
+  | .next ls e => .next ls.length e (hashRanges fs ls)
+  | .seek (.ok _) => .seek none
+  | .seek (.error e) => .seek (some e)
 
 structure SpecState where
   /-- file-level promises, one per file -/
